@@ -9,13 +9,23 @@ cd "$D" || exit 2
 git checkout -q -- . ; rm -f tests/demo.rs
 git apply OUT/patch.diff || { echo "patch does not apply"; exit 2; }
 cp OUT/patch.diff "$OUT/patch.diff"; cp OUT/demo.rs "$OUT/demo.rs"
-ENVV=""
-if [ -f OUT/env.txt ]; then ENVV="$(cat OUT/env.txt)"; fi
+ENVV="A=b"
 SUITE=$(env $ENVV cargo test --workspace --no-fail-fast --offline 2>&1 | grep -E "^test result" | awk '{p+=$4; f+=$6} END {print p" passed "f" failed"}')
+# optional build configuration: OUT/env.txt (KEY=VALUE per line, values may contain spaces), OUT/features.txt
+if [ -f OUT/env.txt ]; then
+  while IFS= read -r line; do
+    case "$line" in
+      \#*|"") ;;
+      *=*) export "${line%%=*}=${line#*=}" ;;
+    esac
+  done < OUT/env.txt
+fi
+FEAT=""
+if [ -f OUT/features.txt ]; then FEAT="--features $(cat OUT/features.txt)"; fi
 cp OUT/demo.rs tests/demo.rs
-env $ENVV cargo test --release --offline --test demo > "$OUT/demo_with_patch.log" 2>&1; RC1=$?
+env $ENVV cargo test --release --offline $FEAT --test demo > "$OUT/demo_with_patch.log" 2>&1; RC1=$?
 git apply -R OUT/patch.diff
-env $ENVV cargo test --release --offline --test demo > "$OUT/demo_without_patch.log" 2>&1; RC2=$?
+env $ENVV cargo test --release --offline $FEAT --test demo > "$OUT/demo_without_patch.log" 2>&1; RC2=$?
 rm -f tests/demo.rs
 git apply OUT/patch.diff
 python3 - "$OUT" "$ID" "$PROP" "$SUITE" "$RC1" "$RC2" <<'PY'
